@@ -98,6 +98,14 @@ pub proof fn lemma_count_same_activity<R: Registry>(s: Seq<Slot<R>>, t: Seq<Slot
         lemma_count_same_activity(s.drop_last(), t.drop_last());
     }
 }
+/// an active slot makes the count positive
+pub proof fn lemma_count_positive<R: Registry>(s: Seq<Slot<R>>, i: int)
+    requires 0 <= i < s.len(), s[i].location is Some,
+    ensures vx_active_count(s) >= 1
+    decreases s.len()
+{
+    if i == s.len() - 1 { } else { lemma_count_positive(s.drop_last(), i); }
+}
 pub proof fn lemma_count_bound<R: Registry>(s: Seq<Slot<R>>)
     ensures vx_active_count(s) <= s.len()
     decreases s.len()
@@ -473,9 +481,6 @@ def build(name="alloc", archetype_items=None):
         allocate_batch,
         Fn(A, r"^impl<R> Allocator<R>", "get", ret="r",
            ensures=[("C02.get_is_view", "r == (if self.resolves(identifier) { Some(self.view()[identifier]) } else { None::<Location<R>> })")],
-           rewrites=[(r"let slot = self\.slots\.get\(identifier\.index\)\?;",
-                      "let slot = match self.slots.get(identifier.index) { Some(s) => s, None => return None };",
-                      "R9b: `?` on Option written as the match/return it abbreviates")],
            props=["C02"]),
         Fn(A, r"^impl<R> Allocator<R>", "is_active", ret="b",
            ensures=[("C02.is_active_is_dom", "b == self.resolves(identifier)")], props=["C02"]),
